@@ -27,11 +27,11 @@ func init() {
 		Outside:     []string{"trees deeper/wider than the bound (serialisation is structurally recursive; no inductive argument is claimed)", "strings longer than 5 bytes"},
 		Bounds: map[string]any{
 			"quick":    "depth ≤ 1, width ≤ 2, string lengths {0,2}, all 7 ttl bytes symbolic, every truncation point (symbolic)",
-			"thorough": "depth ≤ 2, width ≤ 2, string lengths {0,2,5}",
+			"thorough": "depth ≤ 1, width ≤ 3, string lengths {0,2,5}",
 		},
 		specs: func(tier string) []specRef {
 			return []specRef{
-				hs(rootPkg, "VerifC17_roundtrip", P{"depth": q(tier, int64(1), 2), "width": 2, "strlens": q(tier, int64(2), 3)}, "roundtrip", "truncated"),
+				hs(rootPkg, "VerifC17_roundtrip", P{"depth": 1, "width": q(tier, int64(2), 3), "strlens": q(tier, int64(2), 3)}, "roundtrip", "truncated"),
 			}
 		},
 	}
@@ -48,7 +48,7 @@ func hsx(pkg, name string, params map[string]int64, maxPaths, timeoutS int, witn
 func init() {
 	checks["C12"] = &checkDef{
 		Level:       levelOther,
-		Explanation: "Bounded symbolic execution of the real readNextMessage and streamTo (resp.go) over a bufio.Reader fed by a chunking io.Reader. A harness-side generator draws a well-formed frame by forking over every RESP2/RESP3 form (blob/verbatim/blob-error strings with arbitrary binary payload incl. CR/LF, simple strings/errors/doubles/big numbers, the +OK fast path, integers with sign and symbolic digits, the three null forms, booleans, streamed strings, empty/declared/streamed aggregates of all four aggregate types, attribute frames) and emits both the wire bytes and the expected value tree with independent arithmetic. Oracle: structural equality of the decoded tree (type, payload, children, attrs), exact byte consumption (a second frame follows and must decode independently), for the chunkings: everything at once, one byte per Read, one split point; bufio sizes 16 and 4096. streamTo: written bytes equal the payload a normal read returns, nil/error replies surface as errors, pushes are skipped.",
+		Explanation: "Bounded symbolic execution of the real readNextMessage and streamTo (resp.go) over a bufio.Reader fed by a chunking io.Reader. A harness-side generator draws a well-formed frame by forking over every RESP2/RESP3 form (blob/verbatim/blob-error strings with arbitrary binary payload incl. CR/LF, simple strings/errors/doubles/big numbers, the +OK fast path, integers with sign and symbolic digits, the three null forms, booleans, streamed strings, empty/declared/streamed aggregates of all four aggregate types, attribute frames) and emits both the wire bytes and the expected value tree with independent arithmetic. Oracle: structural equality of the decoded tree (type, payload, children, attrs), exact byte consumption (a second frame follows and must decode independently), for the chunkings: everything at once, one byte per Read, one split point; bufio sizes 32 (the smallest read buffer the client accepts) and 4096. streamTo: written bytes equal the payload a normal read returns, nil/error replies surface as errors, pushes are skipped.",
 		Assumptions: []string{"payload lengths are concrete per path, payload bytes symbolic; integer digits symbolic within '0'..'9'", "nested values come from a reduced menu (blob, 1-digit integer, two null forms, +OK, double, nested aggregate); non-first children from a two-kind menu"},
 		Outside:     []string{"trees deeper than 2 or wider than 2 (the decoder is structurally recursive; no inductive argument is claimed)", "integers of more than 18 digits (may exceed int64: not well-formed)", "more than one split point per frame (quick: 4 split positions; thorough: every position)"},
 		Bounds: map[string]any{
